@@ -265,6 +265,14 @@ Definition is_write (o : op) : bool := match o with OWrite _ _ => true | _ => fa
 Definition expected (ws : list op) (o : op) : mobs := snd (step (run init ws) o).
 Definition check_step (ws : list op) (o : op) (i : iobs) : bool := agree (expected ws o) i.
 
+(* does the model's enumeration current_prolog_flag(F, V), F unbound, after the writes ws list the flag of that name?
+   (used to name the flag on which a disagreeing enumeration differs) *)
+Definition enum_has (ws : list op) (V : term) (name : string) : bool :=
+  match current_call (run init ws) (Var 0) V with
+  | RSols l => existsb (fun p => term_eqb (fst p) (A name)) l
+  | RErr _ => false
+  end.
+
 (* the same check stated on the whole history: step k (0-based) of ops *)
 Definition check_at (k : nat) (ops : list op) (obs : list iobs) : bool :=
   match nth_error ops k, nth_error obs k with
